@@ -64,6 +64,16 @@ func (t *GTP) MarshalText() ([]byte, error) {
 	return []byte("tp<" + t.S + ">"), nil
 }
 
+// a marshaler whose output is whatever it holds (valid or not)
+type GRawM struct{ B string }
+
+func (m GRawM) MarshalJSON() ([]byte, error) { return []byte(m.B), nil }
+
+// a text marshaler whose output is whatever it holds (valid UTF-8 or not)
+type GRawT struct{ B string }
+
+func (m GRawT) MarshalText() ([]byte, error) { return []byte(m.B), nil }
+
 type GKey string
 
 func (k GKey) MarshalText() ([]byte, error) { return []byte("K" + strings.ToUpper(string(k))), nil }
@@ -105,6 +115,7 @@ var genDeclared = []reflect.Type{
 	reflect.TypeOf(GNamedBytes(nil)), reflect.TypeOf(GNamedSlice(nil)), reflect.TypeOf(GNamedMap(nil)),
 	reflect.TypeOf(GEmb1{}), reflect.TypeOf(GEmb2{}), reflect.TypeOf(GOuter{}), reflect.TypeOf(GTagged{}),
 	reflect.TypeOf(time.Time{}), reflect.TypeOf(stdjson.Number("")), reflect.TypeOf(stdjson.RawMessage(nil)),
+	reflect.TypeOf(GRawM{}), reflect.TypeOf(GRawT{}),
 }
 
 var genScalars = []reflect.Type{
@@ -347,6 +358,16 @@ func (g *Gen) fill(v reflect.Value, depth int, o GenOpt) {
 		} else {
 			v.SetString(genNumbers[r.Intn(len(genNumbers))])
 		}
+		return
+	case reflect.TypeOf(GRawM{}):
+		if !o.ValidNum && r.Intn(4) == 0 {
+			v.Field(0).SetString(genBadRaws[r.Intn(len(genBadRaws))])
+		} else {
+			v.Field(0).SetString(genRaws[r.Intn(len(genRaws))])
+		}
+		return
+	case reflect.TypeOf(GRawT{}):
+		v.Field(0).SetString(g.String(o.ValidUTF8))
 		return
 	case reflect.TypeOf(stdjson.RawMessage(nil)):
 		if r.Intn(6) == 0 && !o.NoNil {
